@@ -1,5 +1,6 @@
 import SLModel.Core.Query
 import SLModel.Lemmas.Query
+import SLModel.Lemmas.Rx
 /-!
 # C07 — query matching follows the documented query semantics
 
@@ -27,7 +28,9 @@ predicate of one known finding:
 
 * `coveredByScoredTerms`  — `candidates.unscored-required-doc` (witness `mechanism_ne_spec_witness`)
 * `expansionsComplete` (implied by `belowCaps` + `rxPrefixOk`, `expansionsComplete_of_caps`)
-                          — `regex.literal-prefix` (witness `regex_prefix_witness`)
+                          — `regex.literal-prefix`, repaired in /repo (eccd200): legacy witness
+                            `legacy_regex_prefix_witness`, soundness of the repaired prefix
+                            relative to the engine: `regex_prefix_sound`
 * `Q.rootChain` (function_score / script_score clauses only as a chain at the root)
                           — `score-drop.nested` (witness `nested_drop_witness`)
 -/
@@ -205,8 +208,8 @@ theorem mechanism_sound (c : Ctx) (segs : List Seg) (q : Q) (root : Option Flt)
 /-- **Expansions below their caps are complete**: `belowCaps` (prefix/wildcard/regex: at most
 `max_expansions` matching dictionary terms per segment; fuzzy: all candidates of a token fit into
 `fuzzy.max_expansions`) and `rxPrefixOk` for every term group of the plan give
-`expansionsComplete`.  (`rxPrefixOk` fails on the unchanged code for patterns such as `rusts?`:
-second known finding, see `regex_prefix_witness`.) -/
+`expansionsComplete`.  (`rxPrefixOk` failed before repository commit eccd200 for patterns such as `rusts?`, see
+`legacy_regex_prefix_witness`; for the repaired prefix function see `regex_prefix_sound`.) -/
 theorem expansionsComplete_of_caps (c : Ctx) (segs : List Seg) (q : Q)
     (hcap : (plan c true q).groups.all (belowCaps c segs) = true)
     (hrx : (plan c true q).groups.all (rxPrefixOk c segs) = true) :
@@ -396,14 +399,36 @@ def wDocT (id : Nat) (toks : List Str) : ADoc :=
 `[7]` and `[7,8]` -/
 def wCtxRx : Ctx := { wCtx with rx := fun p t => p == [7, 8, 63] && (t == [7] || t == [7, 8]) }
 
-/-- **Negative witness 2** (`regex.literal-prefix`): `regex_literal_prefix("ab?")` is `ab`, so the
-term `a` is never scanned although the pattern matches it. -/
-theorem regex_prefix_witness :
-    rxPrefix [7, 8, 63] = [7, 8] ∧
-    searchOrds wCtxRx [⟨[wDocT 20 [[7]], wDocT 21 [[7, 8]]], []⟩] (.regex [1] [7, 8, 63] 100) none = [[1]] ∧
+/-- **Legacy witness 2** (`regex.literal-prefix`, repaired in repository commit eccd200): the old
+`regex_literal_prefix("ab?")` was `ab`, which is not a prefix of the matching term `a`, so `a`
+was never scanned; the repaired function yields `a` and the search agrees with the spec. -/
+theorem legacy_regex_prefix_witness :
+    rxPrefixLegacy [7, 8, 63] = [7, 8] ∧ isPrefix (rxPrefixLegacy [7, 8, 63]) [7] = false ∧
+    rxPrefix [7, 8, 63] = [7] ∧
+    -- top-level alternation `ab|a`: legacy prefix `ab`, repaired prefix empty
+    rxPrefixLegacy [7, 8, 124, 7] = [7, 8] ∧ rxPrefix [7, 8, 124, 7] = [] ∧
+    searchOrds wCtxRx [⟨[wDocT 20 [[7]], wDocT 21 [[7, 8]]], []⟩] (.regex [1] [7, 8, 63] 100) none = [[0, 1]] ∧
     Spec.searchOrds wCtxRx [⟨[wDocT 20 [[7]], wDocT 21 [[7, 8]]], []⟩] (.regex [1] [7, 8, 63] 100) none = [[0, 1]] ∧
-    (plan wCtxRx true (.regex [1] [7, 8, 63] 100)).groups.all (rxPrefixOk wCtxRx [⟨[wDocT 20 [[7]], wDocT 21 [[7, 8]]], []⟩]) = false := by
+    (plan wCtxRx true (.regex [1] [7, 8, 63] 100)).groups.all (rxPrefixOk wCtxRx [⟨[wDocT 20 [[7]], wDocT 21 [[7, 8]]], []⟩]) = true := by
   decide
+
+/-- **The repaired literal prefix is sound** relative to the engine property `LiteralHead` (a
+pattern without top-level alternation that starts with literals not followed by a quantifier
+matches only words starting with them), for patterns `literals`, `literals stop …`,
+`literals quantifier …` — all pattern classes the harness generates (`w`, `w.*`, `ws?`,
+`w[a-z]+`, `w[a-z]*`, `(a|b)`, `a|b`).  `rxPrefixOk` (the decidable instance on the dictionary in
+play) stays the hypothesis of `expansionsComplete_of_caps` for arbitrary patterns and engines; the
+harness evaluates it with the real regex crate on every generated case. -/
+theorem regex_prefix_sound (rx : Str → Str → Bool) (hrx : LiteralHead rx) (lit rest t : Str)
+    (hl : lit.all isLitC = true)
+    (hr : rest = [] ∨ ∃ q r, rest = q :: r ∧ (isStop q = true ∨ isQuant q = true))
+    (hm : rx (lit ++ rest) t = true) : isPrefix (rxPrefix (lit ++ rest)) t = true :=
+  rxPrefix_sound rx hrx lit rest t hl hr hm
+
+/-- non-vacuity: `ab?` = literals `ab` + quantifier; `ab.*` = literals + stop -/
+example : rxPrefix ([7, 8] ++ [63]) = [7] ∧ rxPrefix ([7, 8] ++ [46, 42]) = [7, 8] ∧
+    isLitC 7 = true ∧ isQuant 63 = true ∧ isStop 46 = true := by decide
+
 
 /-- documents with an i64 field `[2]` (think `year`) -/
 def wDocY (id : Nat) (words : List Nat) (y : Int) : ADoc := { wDoc id words with i64 := [([2], [y])] }
